@@ -2,5 +2,3 @@ SPECIFICATION Spec
 CONSTANTS MaxIters = 5  Energies = {1, 2, 3, 4}  KeepLast = TRUE
 CHECK_DEADLOCK FALSE
 INVARIANT NeverWorseThanStart
-INVARIANT ReturnsBestSeen
-INVARIANT IterationCount
